@@ -131,9 +131,25 @@ impl GcEngine {
             }
         }
         if self.prop == "C04" && out.closed.is_none() {
-            return self.metamorphic(cfg, &out);
+            if let Some(f) = self.metamorphic(cfg, &out) {
+                return Some(f);
+            }
+        }
+        if out.closed.is_none() {
+            return self.blind(cfg, calls);
         }
         None
+    }
+
+    /// C02–C05: the same calls once more without keys() around every call (engine::run_blind).
+    fn blind(&self, cfg: Cfg, calls: &[Call]) -> Option<Failure> {
+        if self.prop == "C01" {
+            return None;
+        }
+        let mut o: Box<dyn Oracle> = if self.prop == "C03" { Box::new(crate::engine::C03::quiet()) } else { make_oracle(self.prop) };
+        let mut f = crate::engine::run_blind(cfg, calls, &mut *o)?;
+        f.prop = self.prop.into();
+        Some(f)
     }
 }
 
@@ -161,10 +177,18 @@ impl Engine for GcEngine {
             let mut q = crate::engine::C03::quiet();
             failure = run_concrete(cfg, &out.calls, &mut q, None).failure;
         }
+        let mut blind_ev = None;
+        if failure.is_none() && out.closed.is_none() && self.prop != "C01" && case.order_sel % 4 == 1 {
+            // one case in four: a blind run, up to the end of the generated part or through the epilogue
+            let upto = if case.order_sel % 8 == 1 { out.gen_calls.min(out.calls.len()) } else { out.calls.len() };
+            failure = self.blind(cfg, &out.calls[..upto]);
+            blind_ev = Some(if upto == out.calls.len() { "blind_run.through_epilogue" } else { "blind_run.generated_part" });
+        }
         if let Some(f) = &mut failure {
             f.prop = self.prop.into();
         }
         let mut events: Vec<&'static str> = out.events.iter().copied().collect();
+        events.extend(blind_ev);
         if let Some(c) = out.closed {
             events.push(c);
         }
